@@ -16,4 +16,4 @@ N_QUICK, N_THOROUGH = 120, 3000
 
 def run(ctx, replay=None):
     return pc.run_property(ctx, "C09", pc.mon_c09, GEN, N_QUICK, N_THOROUGH, replay=replay, rule=RULE,
-                           assumptions=[pc.PFCP_NOTE], extra_phase=timer_phase.phase("C09", timer_phase.mon_c09_timed))
+                           assumptions=[pc.PFCP_NOTE], directed=pc.directed_c09, extra_phase=timer_phase.phase("C09", timer_phase.mon_c09_timed))
